@@ -4,3 +4,4 @@ import Hx.Proof
 import Hx.Collapse
 import Hx.Tree
 import Hx.Num
+import Hx.Framework
